@@ -14,6 +14,7 @@ type ReplayFn = fn(&Value, &mut Tally);
 fn registry() -> Vec<(&'static str, RunFn, ReplayFn)> {
     vec![
         ("C03", props::c03::run, props::c03::replay),
+        ("C04", props::c04::run, props::c04::replay),
         ("C05", props::c05::run, props::c05::replay),
         ("C16", props::c16::run, props::c16::replay),
     ]
